@@ -1,5 +1,6 @@
 import TaskctlVerif.Model.Graph
 import TaskctlVerif.Model.Sched
+import TaskctlVerif.Model.Nested
 import TaskctlVerif.Model.Runner
 import TaskctlVerif.Model.Timeout
 import TaskctlVerif.Model.Cli
@@ -78,6 +79,37 @@ def schedCase (fields : List String) : String :=
   let final := ",".intercalate ((List.range n).map fun s => toString (statusCode (σ.status s)))
   let runs := ",".intercalate ((List.range n).map fun s => toString (σ.starts s))
   "|".intercalate qs ++ s!"|final={final}|err={if σ.gerr then 1 else 0}|runs={runs}"
+
+def parseSchedCfg (n : Nat) (deps allow cond ok : String) : Sched.Cfg × (Nat → Bool) :=
+  let depsL : List (List Nat) := (deps.splitOn ";").map fun d => if d = "-" then [] else natList d ","
+  let allowL := allow.toList.map (· == '1')
+  let okL := ok.toList.map (· == '1')
+  let condL : List Sched.Cond := cond.toList.map fun ch =>
+    match ch with
+    | 't' => .meets | 'f' => .fails | 'e' => .err | _ => .none
+  let _ := n
+  ({ deps := fun s => depsL.getD s [], allow := fun s => allowL.getD s false, cond := fun s => condL.getD s .none },
+   fun s => okL.getD s true)
+
+def finalStr (n : Nat) (σ : Sched.St) : String :=
+  ",".intercalate ((List.range n).map fun s => toString (statusCode (σ.status s))) ++ "/" ++
+  ",".intercalate ((List.range n).map fun s => toString (σ.starts s))
+
+/-- `nested n=3 deps=-;0;1 allow=000 cond=nnn ok=111 in=1:2:-;0:00:nn:10 in=2:…` : the final statuses and run
+counts of an outer pipeline and of the inner pipelines of its nested stages (fair complete run) -/
+def nestedCase (fields : List String) : String :=
+  let n := (kv fields "n").toNat?.getD 0
+  let (co, okf) := parseSchedCfg n (kv fields "deps") (kv fields "allow") (kv fields "cond") (kv fields "ok")
+  let ins : List Sched.NestedStage := (fields.filter (·.startsWith "in=")).filterMap fun f =>
+    match ((f.drop 3).toString.splitOn ":") with
+    | [s, ni, deps, allow, cond, ok] =>
+      let ni' := ni.toNat?.getD 0
+      let (ci, okfi) := parseSchedCfg ni' deps allow cond ok
+      some { S := s.toNat?.getD 0, ci := ci, okf := okfi, ni := ni' }
+    | _ => none
+  let σ := Sched.nestedOuterFinal co okf n ins
+  let inner := ins.map fun ns => s!"in{ns.S}=" ++ finalStr ns.ni (Sched.nestedInnerFinal co okf n ins ns)
+  s!"final={finalStr n σ}|err={if σ.gerr then 1 else 0}|" ++ "|".intercalate inner
 
 /-! ### runner cases -/
 
@@ -395,6 +427,7 @@ def handle (line0 : String) : String :=
   match line.splitOn " " with
   | "graph" :: rest => graphCase (" ".intercalate rest)
   | "sched" :: rest => schedCase rest
+  | "nested" :: rest => nestedCase rest
   | "runner" :: rest => runnerCase rest
   | "timed" :: rest => timedCase rest
   | "cli" :: _ => cliCase line
